@@ -295,6 +295,18 @@ def run(repo: Repo, L: Ledger, tier: str):
                     defs = [norm(d).replace(" ", "") for d in local_defs(addm, a.id)]
                     if defs and all(d.endswith(f".rows[{iv}-1]") for d in defs):
                         return {"input"}
+                    if defs and all(d == "self.default_gap" for d in defs):
+                        return {"join"}
+                    if len(defs) == 1 and isinstance(local_defs(addm, a.id)[0], ast.IfExp):
+                        return classify(local_defs(addm, a.id)[0])
+                    # v = <input row before>; if not isinstance(v, Gap): v = <join gap>
+                    if len(defs) == 2 and sorted(d == "self.default_gap" for d in defs) == [False, True] and any(d.endswith(f".rows[{iv}-1]") for d in defs):
+                        from ..flow import cond_facts as _cf
+
+                        for g_ in walk_shallow(addm.node):
+                            if isinstance(g_, ast.If) and any(isinstance(b_, ast.Assign) and is_name(b_.targets[0], a.id) and norm(b_.value) == "self.default_gap" for b_ in g_.body):
+                                if any(norm(t_).replace(" ", "") == f"isinstance({a.id},Gap)" and v_ is False for t_, v_ in _cf(g_.test, True)):
+                                    return {"input", "join"}
                 if isinstance(a, ast.Subscript) and src.replace(" ", "").endswith(f".rows[{iv}-1]"):
                     return {"input"}
                 if isinstance(a, ast.IfExp):
